@@ -195,10 +195,39 @@ class Report:
         (EVIDENCE_DIR / f"{self.pid}.json").write_text(json.dumps(ev, indent=1, ensure_ascii=False) + "\n")
 
 
+def thorough_selftest(rep: "Report") -> None:
+    """thorough tier: run the checker's own mutation corpus (``mutants/<pid>.json``) on scratch
+    copies of the analysed tree; a mutant that does not behave as recorded makes the checker
+    itself unreliable -> analysis error (exit 2), never a pass"""
+    if rep.tier != "thorough" or os.environ.get("PDELINT_SELFTEST") or "selftest" in rep.extra:
+        return
+    known = {k["key"] for k in load_known() if k.get("property") == rep.pid and k.get("status") == "known"}
+    if any(f.key not in known for f in rep.findings):
+        rep.note("mutation self-test skipped: the analysed tree has findings that are not listed as known, so behaviour-preserving twins cannot exit 0")
+        return
+    from .selftest import run_selftest
+
+    res = run_selftest(rep.pid, jobs=max(1, (os.cpu_count() or 2) // 2))
+    bad = [r for r in res if not r["ok"]]
+    for r in res:
+        rep.oblige(f"selftest:{r['name']}", r["ok"], r.get("why") or r.get("expect"))
+    rep.extra["selftest"] = {
+        "mutants": len(res),
+        "as_expected": len(res) - len(bad),
+        "fire": sum(1 for r in res if r.get("expect") == "fire"),
+        "silent": sum(1 for r in res if r.get("expect") == "silent"),
+    }
+    rep.floor("mutants in the self-test corpus", len(res), 9)
+    if bad:
+        raise AnalysisError("mutation self-test failed: " + "; ".join(f"{r['name']}: {r.get('why')}" for r in bad[:5]))
+
+
 def run_check(pid: str, tier: str, fn) -> int:
     """Run ``fn(tier) -> Report`` under the exit protocol."""
     try:
         rep = fn(tier)
+        rep.tier = tier
+        thorough_selftest(rep)
         return rep.finish()
     except AnalysisError as e:
         print(f"ANALYSIS-ERROR property={pid}: {e}")
